@@ -9,7 +9,7 @@ if [ "$1" = "-e" ]; then
   sed -i "$2" "$D/$3"; shift 3
   diff -r /repo/src "$D/src" | head -20 || true
 else
-  (cd "$D" && patch -p1 -s < "$1"); shift
+  PF=$(realpath "$1"); (cd "$D" && patch -p1 -s < "$PF"); shift
 fi
 [ "$1" = "--" ] && shift
 cd /verif && VERIF_REPO="$D" ./check "$@"
